@@ -258,6 +258,9 @@ def run(report):
     items.sort(key=lambda it: -sizes["%s:n=%d" % (it[0], it[1])] // it[3])
     for part in env.pmap(_sweep_shard, items):
         report.absorb(part)
+    from ..gen import ww
+    for part in env.pmap(ww.shard, [(i, env.NPROC, "behaviour") for i in range(env.NPROC)]):
+        report.absorb(part)
     for part in env.pmap(_falsy_shard, [(i, env.NPROC) for i in range(env.NPROC)]):
         report.absorb(part)
     report.extra["falsy_body_family"] = {"values": len(FALSY) + len(TRUTHY), "body_forms": len(BODY_FORMS), "shapes": 6}
